@@ -73,12 +73,35 @@ def den_parts(feature, n):
     return out
 
 
+_COMP = {"A": "T", "C": "G", "G": "C", "T": "A", "R": "Y", "Y": "R", "S": "S", "W": "W", "K": "M", "M": "K",
+         "B": "V", "V": "B", "D": "H", "H": "D", "N": "N"}
+
+
+def reading(den, text):
+    """what a feature spells: its parts in the order they are listed, each read on its own strand (reverse-complemented
+    for -1), positions taken modulo the length.  Order-sensitive, unlike the set of nucleotides denoted."""
+    if den is None:
+        return None
+    out = []
+    for (pos, strand) in den:
+        letters = [text[p] for p in pos]
+        rc_ = [_COMP.get(c.upper(), c) if c.isupper() else _COMP.get(c.upper(), c).lower() for c in reversed(letters)]
+        if strand == -1:
+            letters = rc_
+        elif strand != 1:
+            # a strandless part is double-stranded DNA: it spells either strand (canonical form: the smaller one)
+            letters = min(letters, rc_)
+        out.append("".join(letters))
+    return "".join(out)
+
+
 def observe(rec):
     n = len(rec.seq)
     feats = []
     for f in rec.features:
+        d_ = den_parts(f, n) if n else None
         feats.append(dict(type=f.type, id=f.id, quals=repr(sorted((k, v) for k, v in f.qualifiers.items())),
-                          den=den_parts(f, n) if n else None))
+                          den=d_, reads=reading(d_, str(rec.seq)) if n else None))
     return dict(seq=str(rec.seq), id=rec.id, name=rec.name, description=rec.description,
                 annotations=repr(sorted((k, repr(v)) for k, v in rec.annotations.items())),
                 letan={k: list(v) for k, v in rec.letter_annotations.items()}, features=feats,
@@ -126,7 +149,7 @@ def compare_rotation(base, obs, i, n, label):
             want = tuple((p + i) % n for p in pbase)
             whole_source = fb["type"] == "source" and len(pbase) == n and len(fb["den"]) == 1
             same = (sorted(po) == sorted(want)) if whole_source else (po == want)
-            if not same or norm_strand(so) != norm_strand(sb):
+            if not same or so != sb:      # (a rotation carries the strand of every part over as it is, None included)
                 pb.append("%s: feature %s part denotes %r strand %r, expected %r strand %r" % (
                     label, fb["id"], po, so, want, sb))
     return pb
